@@ -241,6 +241,10 @@ pub trait TrX: Trait {
     const CLONEABLE: bool;
     fn name() -> &'static str;
     fn clone_vec<M: MemBuilder>(_v: &AnyVec<Self, M>) -> AnyVec<Self, M> { unreachable!("not cloneable") }
+    /// `Clone::clone_from` (C08)
+    fn clone_from_vec<M: MemBuilder>(_dst: &mut AnyVec<Self, M>, _src: &AnyVec<Self, M>) { unreachable!("not cloneable") }
+    /// a destination for `clone_from` that currently holds ANOTHER element type (see `foreign_vec_impl`)
+    fn foreign_vec<T: Elem, M: MX>(kind: u8) -> Option<AnyVec<Self, M>>;
     /// lazy-clone of an `Element` (ElementRef / ElementMut / drained element all deref to it)
     fn lz_element<'e, MS: MemBuilder, M: MemBuilder, C: Consumer<Self, M>>(_e: &Element<'e, Self, MS>, _depth: u8, _a: &mut AnyVec<Self, M>, _c: C) { unreachable!() }
     fn lz_pop<'e, MS: MemBuilder, M: MemBuilder, C: Consumer<Self, M>>(_e: &Pop<'e, Self, MS>, _depth: u8, _a: &mut AnyVec<Self, M>, _c: C) { unreachable!() }
@@ -261,9 +265,50 @@ pub trait TrX: Trait {
     fn lzr_swap_remove<'e, MS: MemBuilder>(_e: &SwapRemove<'e, Self, MS>, _depth: u8) -> (usize, core::any::TypeId, u16) { unreachable!() }
 }
 
+/// Same size and alignment as `T`, another `TypeId`; cloning and dropping it clones / drops the tracked `T` inside.
+#[repr(transparent)]
+#[derive(Clone)]
+pub struct Twin<T: Elem>(pub T);
+
+pub const N_FOREIGN: u8 = 8;
+/// A vector whose element type is NOT necessarily `T`, holding up to two values (fewer if the backend has no room):
+/// 0 = u64, 1 = W8DX, 2 = u8, 3 = ZD, 4 = Twin<T> (same layout as T), 5 = T itself, 6 = T empty, 7 = Twin<T> empty.
+/// None when the backend cannot be built for that element type.
+pub fn foreign_vec_impl<T: Elem, Tr: ?Sized + Trait, M: MX>(kind: u8) -> Option<AnyVec<Tr, M>>
+where T: SatisfyTraits<Tr>, Twin<T>: SatisfyTraits<Tr>, u64: SatisfyTraits<Tr>, u8: SatisfyTraits<Tr>, crate::elem::W8DX: SatisfyTraits<Tr>, crate::elem::ZD: SatisfyTraits<Tr>
+{
+    fn mk<X: 'static + SatisfyTraits<Tr>, Tr: ?Sized + Trait, M: MX>(n: usize, mut f: impl FnMut() -> X) -> Option<AnyVec<Tr, M>> {
+        let (size, align) = (core::mem::size_of::<X>(), core::mem::align_of::<X>());
+        if M::build_panics(size) { return None; }
+        if matches!(M::KIND, BK::Stack | BK::StackN) && align > 8 { return None; }
+        let mut v = AnyVec::<Tr, M>::new_in::<X>(M::make());
+        for _ in 0..n {
+            if !M::RESIZABLE && v.len() >= v.capacity() { break; }
+            let x = f();
+            v.downcast_mut::<X>().unwrap().push(x);
+        }
+        Some(v)
+    }
+    let mut k = 6u64;
+    match kind {
+        0 => mk::<u64, Tr, M>(2, || { k += 1; k }),
+        1 => mk::<crate::elem::W8DX, Tr, M>(2, crate::elem::W8DX::fresh),
+        2 => mk::<u8, Tr, M>(2, || { k += 1; k as u8 }),
+        3 => mk::<crate::elem::ZD, Tr, M>(2, crate::elem::ZD::fresh),
+        4 => mk::<Twin<T>, Tr, M>(2, || Twin(T::fresh())),
+        5 => mk::<T, Tr, M>(2, T::fresh),
+        6 => mk::<T, Tr, M>(0, T::fresh),
+        _ => mk::<Twin<T>, Tr, M>(0, || Twin(T::fresh())),
+    }
+}
+
 macro_rules! trx_plain {
     ($t:ty, $n:expr) => {
-        impl TrX for $t { const CLONEABLE: bool = false; fn name() -> &'static str { $n } }
+        impl TrX for $t {
+            const CLONEABLE: bool = false;
+            fn name() -> &'static str { $n }
+            fn foreign_vec<T: Elem, M: MX>(kind: u8) -> Option<AnyVec<Self, M>> { foreign_vec_impl::<T, Self, M>(kind) }
+        }
     };
 }
 macro_rules! trx_cloneable {
@@ -272,6 +317,8 @@ macro_rules! trx_cloneable {
             const CLONEABLE: bool = true;
             fn name() -> &'static str { $n }
             fn clone_vec<M: MemBuilder>(v: &AnyVec<Self, M>) -> AnyVec<Self, M> { v.clone() }
+            fn clone_from_vec<M: MemBuilder>(dst: &mut AnyVec<Self, M>, src: &AnyVec<Self, M>) { dst.clone_from(src) }
+            fn foreign_vec<T: Elem, M: MX>(kind: u8) -> Option<AnyVec<Self, M>> { foreign_vec_impl::<T, Self, M>(kind) }
             fn lz_element<'e, MS: MemBuilder, M: MemBuilder, C: Consumer<Self, M>>(e: &Element<'e, Self, MS>, depth: u8, a: &mut AnyVec<Self, M>, c: C) { lazy_feed(e, depth, a, c) }
             fn lz_pop<'e, MS: MemBuilder, M: MemBuilder, C: Consumer<Self, M>>(e: &Pop<'e, Self, MS>, depth: u8, a: &mut AnyVec<Self, M>, c: C) { lazy_feed(e, depth, a, c) }
             fn lz_remove<'e, MS: MemBuilder, M: MemBuilder, C: Consumer<Self, M>>(e: &Remove<'e, Self, MS>, depth: u8, a: &mut AnyVec<Self, M>, c: C) { lazy_feed(e, depth, a, c) }
